@@ -59,6 +59,7 @@ def gen_cases(rng: random.Random, count: int):
     cases = []
     tries = 0
     renamed = 0
+    mixed_forced = 0
     while len(cases) < count and tries < count * 200:
         tries += 1
         gen, ent, enc, info = cfggen.gen_shell_case(rng, hostile_text=True)
@@ -84,7 +85,8 @@ def gen_cases(rng: random.Random, count: int):
                 enc['provides'] = {'sts': sorted(info['provides']), 'mts': 'NONE'}
             if explicit_sets(enc) < 2:
                 continue
-        if len(cases) % 4 == 1 and len(info['requires']) >= 2:
+        if len(info['requires']) >= 2 and (mixed_forced == 0 or len(cases) % 4 == 1):
+            mixed_forced += 1
             # both semantics in use on the requires side (every overview section is emitted)
             names = sorted(info['requires'])
             k = rng.randint(1, len(names) - 1)
